@@ -43,6 +43,9 @@ pub struct Features {
     /// entry is then edited, and what the long-lived server loads is compared with the compiler's view of the final tree
     #[serde(default)]
     pub late_candidate: bool,
+    /// visibility only: the target module has no `pub` declaration at all
+    #[serde(default)]
+    pub all_private: bool,
 }
 
 #[derive(Serialize, Deserialize, Clone, Debug)]
@@ -146,7 +149,9 @@ fn import_stmt(spelling: &str, prefix: &str, segs: &[String], item: &str) -> (St
 
 fn module_body(path: &str, kind: &str, pub_item: &str, hidden_item: &str, n: u64) -> String {
     let mut s = marker(path);
-    s.push_str(&item_decl(kind, pub_item, true, n));
+    if !pub_item.is_empty() {
+        s.push_str(&item_decl(kind, pub_item, true, n));
+    }
     s.push_str(&item_decl(kind, hidden_item, false, n + 1000));
     s.push_str(&format!("def private_helper_{n}() -> int:\n    return {n}\n"));
     s
@@ -239,6 +244,7 @@ pub fn random_features(seed: u64) -> Features {
         n: r.range(1, 500),
         entry_spelling: entry_spelling.clone(),
         late_candidate: cat == "ambiguous" && r.chance(1, 2),
+        all_private: cat == "visibility" && r.chance(1, 4),
         dep_open: r.chance(1, 4),
         // (entry-level, plainly spelled imports only: one question at a time)
         stem_collision: cat == "visibility" && prefix == "plain" && entry_spelling == "abs" && (placement == "entry-root" || placement == "entry-nested") && r.chance(1, 2),
@@ -310,7 +316,8 @@ pub fn build(f: &Features, order_seed: u64) -> Scn {
     segs.push(tname.clone());
     let stem = format!("{base}{}", segs.join("/"));
 
-    let body = |p: &str| module_body(p, item_kind, &pub_item, &hidden_item, n);
+    let only_private = f.all_private && f.cat == "visibility";
+    let body = |p: &str| module_body(p, item_kind, if only_private { "" } else { &pub_item }, &hidden_item, n);
     let mut doc_target: Option<String> = None;
     let mut preferred: Option<String> = None;
     match layout {
@@ -730,10 +737,11 @@ fn shape(f: &Features) -> String {
         f.target_dirs.len(),
         if f.prefix == "crate" { f.proj } else { 0 },
         format!(
-            "{}{}{}{}",
+            "{}{}{}{}{}",
             if f.entry_spelling.is_empty() || f.entry_spelling == "abs" { String::new() } else { format!("|entry={}", f.entry_spelling) },
             if f.dep_open { "|dep-open" } else { "" },
             if f.late_candidate { "|late-candidate" } else { "" },
+            if f.all_private { "|all-private" } else { "" },
             if f.stem_collision { "|stem-collision" } else { "" }
         )
     )
@@ -899,6 +907,7 @@ pub fn run_case(scn: &Scn, scratch: &Path, fakebin: &Path) -> CaseOut {
         } else if let Some(Ok(())) = &cv.check {
             let mut cf = scn.f.clone();
             cf.cat = "visibility-control".into();
+            cf.all_private = false;
             let control = build(&cf, scn.hash_seed);
             control.tree.materialise(&root, None);
             let cc = cli_view(&root, &control, scn.hash_seed, true);
@@ -1022,6 +1031,11 @@ pub fn minimise(scn: &Scn, class: &str, outcome: &str, scratch: &Path, fakebin: 
         if f.late_candidate {
             let mut c = f.clone();
             c.late_candidate = false;
+            cands.push(c);
+        }
+        if f.all_private {
+            let mut c = f.clone();
+            c.all_private = false;
             cands.push(c);
         }
         if f.stem_collision {
